@@ -59,7 +59,10 @@ def fit_one(est, df, meta, tside, oside, mside=None):
         o.exposure_model(tside[1], print_results=False)
     else:
         o.exposure_model('S', custom_model=ec.Garbage(tside[1]), print_results=False)
-    if mside is not None:
+    if mside is not None and mside[0] == 'learner':
+        # the user-supplied-learner branch with a classifier that offers predict_proba only (one column per class)
+        o.missing_model('S + A', custom_model=ec.CellProba(), print_results=False)
+    elif mside is not None:
         o.missing_model(meta['sat_AL'] if mside[0] == 'sat' else mside[1], print_results=False)
     if oside[0] == 'sat':
         o.outcome_model(meta['sat_AL'], print_results=False)
@@ -145,7 +148,7 @@ def gen_runs(ctx, n_frames):
         if mo[0] == 'garbage' and otype != 'binary':
             mo = ('formula', 'A')
         mwrong = ('formula', ctx.rng.choice(['1', 'A'] + meta['sub_models']))
-        for which, ts, ms, os_ in (('weights-saturated+missing', ('sat',), ('sat',), mo),
+        for which, ts, ms, os_ in (('weights-saturated+missing', ('sat',), ('sat',) if i % 2 else ('learner',), mo),
                                    ('outcome-saturated+missing', mis_treat(ctx.rng, meta, ns), mwrong, ('sat',))):
             runs.append({'df': df, 'meta': meta, 'est': 'TMLE', 'which': which, 't': ts, 'o': os_, 'm': ms})
     return runs
